@@ -50,14 +50,15 @@ PROPS = {
                         'setRuleResult / key table contents (U-db units)', 'that continued builds return clean results (lemma L1)'],
     },
     'C05': {
-        'units': ['engine', 'engine_build', 'engine_cancel'],
+        'units': ['engine', 'engine_build', 'engine_cancel', 'serialqueue', 'lanequeue'],
         'design_ref': 'DESIGN.md section 4, C05',
         'claim': 'build() returns the empty value whenever the task loop failed, the build was already cancelled or the database could not be locked; '
                  'the execution queue is released under its mutex on every path, the engine is never left busy, resetForBuild clears the flag under '
                  'the mutex; setCancelled resets only the state; a failed or cancelled build still hands its epoch to the database before commit; '
                  'cancelRemainingTasks: after the drain nothing is outstanding, every queue and the task table are empty, every rule that had a task or was '
                  'being scanned is Incomplete, a rule cancelled in progress reads as never built (so the next scan re-runs it), no result is written to '
-                 'the database, both mutexes released (partial correctness of the drain loop)',
+                 'the database, both mutexes released (partial correctness of the drain loop); the execution queues never drop a job (also after '
+                 'cancellation) and answer a process request made after cancellation exactly once with a cancelled result',
         'not_decided': ['delivery from foreign threads, hangs (termination of the drain loop depends on other threads reporting)',
                         'the BuildSystemFrontend / lane queue path'],
     },
@@ -150,6 +151,17 @@ PROPS = {
                  '(keys shorter than 2^32 bytes); BuildValue: a kind\'s signature / output infos / string list are encoded and decoded exactly when its factory takes them',
         'not_decided': ['the key constructors (std::string building)', 'BuildValue toData / decoder loops and StringList (only the three payload predicates they branch on are under contract)', 'BinaryEncoder / BinaryDecoder scalar codecs'],
     },
+    'C16': {
+        'units': ['lanequeue', 'serialqueue', 'subprocess'],
+        'design_ref': 'DESIGN.md section 4, C16',
+        'claim': 'sequential kernel only: addJob (lane based and serial) queues / hands over every job exactly once, in the queue its priority selects, '
+                 'also after cancellation, and wakes a lane with the mutex held; FifoScheduler is first-in first-out; the take-a-job step of a lane '
+                 '(a segment of executeLane) removes exactly one job, from the priority queue whenever it has one, sleeps only with the mutex held after '
+                 'observing both queues empty and no shutdown, and leaves only on shutdown with both queues drained; after cancellation executeProcess starts '
+                 'nothing and completes the request exactly once as cancelled; a reaped process yields exactly one processFinished and one completion',
+        'not_decided': ['the lane limit and "at most N jobs at once" (a property of the thread set)', 'interleavings of lanes, exactly-once across threads, data races',
+                        'spawnProcess, pipe draining, process groups, the kill-after-timeout thread', 'released (background) lanes'],
+    },
     'C17': {
         'units': ['ninja_lex', 'ninja_scope', 'shellesc'],
         'design_ref': 'DESIGN.md section 4, C17',
@@ -195,7 +207,4 @@ NOT_APPLICABLE = {
     'C07': 'half of the property is liveness (never stalls); the accuracy half lives in findCycle, a 120-line function over '
            'five hash containers whose contract could only speak about the map the function itself builds; a faithful '
            'contract is out of reach of cbmc on translated C (DESIGN.md section 1)',
-    'C16': 'exactly-once execution under lane threads, process reaping and pipe draining are concurrency and OS-process '
-           'properties; CBMC contracts are sequential and the one sequential decision (wait status to process status) is an '
-           'inline expression inside a 150-line function around wait4, not a unit',
 }
